@@ -125,6 +125,24 @@ func TestC20(t *testing.T) {
 				Message: fmt.Sprintf("%s %s got %s want %v", kind, name, got, want), Replay: ctx})
 		}
 	}
+	// labelIs: a series' label carries the value of the thing its key names (not a neighbouring label's value)
+	labelIs := func(kind, name string, fams map[string]*ksmetric.Family, key, want string, ctx interface{}) {
+		f := fams[name]
+		if f == nil || len(f.Metrics) != 1 {
+			return
+		}
+		m := f.Metrics[0]
+		got, found := "", false
+		for i, k := range m.LabelKeys {
+			if k == key && i < len(m.LabelValues) {
+				got, found = m.LabelValues[i], true
+			}
+		}
+		if !found || got != want || len(m.LabelKeys) != len(m.LabelValues) {
+			run.Violate(h.Violation{Signature: "C20/series-labels: a label of " + name + " does not carry the value its key names", Monitor: "C20/gauge",
+				Message: fmt.Sprintf("%s %s: %s=%q (present=%v), want %q; keys=%v values=%v", kind, name, key, got, found, want, m.LabelKeys, m.LabelValues), Replay: ctx})
+		}
+	}
 	b2f := func(b bool) float64 {
 		if b {
 			return 1
@@ -187,6 +205,16 @@ func TestC20(t *testing.T) {
 										}
 										gauge("EDS", "eds_status_canary_node_number", f, float64(nn), ctx)
 										gauge("EDS", "eds_status_canary_paused", f, b2f(canary != nil && pausedCond == "True"), ctx)
+										for _, fam := range []string{"eds_status_desired", "eds_status_canary_paused", "eds_status_canary_activated", "eds_created"} {
+											labelIs("EDS", fam, f, "namespace", "ns", ctx)
+											labelIs("EDS", fam, f, "name", "foo", ctx)
+										}
+										if canary != nil {
+											labelIs("EDS", "eds_status_canary_paused", f, "replicaset", canary.ReplicaSet, ctx)
+											if pausedCond == "True" {
+												labelIs("EDS", "eds_status_canary_paused", f, "paused_reason", "CrashLoopBackOff", ctx)
+											}
+										}
 										gauge("EDS", "eds_status_rolling_update_paused", f, b2f(st == v1.ExtendedDaemonSetStatusStateRollingUpdatePaused), ctx)
 										gauge("EDS", "eds_status_rollout_frozen", f, b2f(st == v1.ExtendedDaemonSetStatusStateRolloutFrozen), ctx)
 										run.Nontrivial(fmt.Sprintf("eds:%d%d%d%d%d c%d %s %s", d, c, r, a, u, ci, pausedCond, st))
